@@ -448,7 +448,7 @@ static void out_append(const uint8_t* p, size_t n) {
 static int grow_workbuf(wuffs_base__io_transformer* t, uint8_t** wmem, uint64_t* wlen, wuffs_base__slice_u8* wb) {
   wuffs_base__range_ii_u64 wr = wuffs_base__io_transformer__workbuf_len(t);
   if (wr.min_incl <= *wlen) return 1;
-  if (wr.min_incl > (512ull << 20)) return 2;
+  if (wr.min_incl > (64ull << 20)) return 2;
   uint8_t* n = (uint8_t*)malloc(wr.min_incl);
   if (!n) return 2;
   memset(n, 0, wr.min_incl);
